@@ -234,7 +234,7 @@ PLANS = {
                 "with the harness's own instruction on the real CPU. distinct_nontrivial counts distinct (profile, wrapper, "
                 "prior-content class, argument class) tuples.",
         "assumptions": COMMON_ASSUME + ["'modelled bits' = the bits the crate's flag type defines (their architectural correctness is C19)",
-                                         "xgetbv/rdfsbase/wrfsbase/pushfq/popfq do not trap: XCR0 prior contents = host value, FS base only re-written with its current value, only the ID flag of RFLAGS is varied",
+                                         "xgetbv/rdfsbase/wrfsbase do not trap: XCR0 prior contents = host value, FS base only re-written with its current value; pushfq/popfq are emulated / intercepted in single-step mode (chosen prior RFLAGS incl. reserved bits, IF, IOPL; the popfq operand is recorded, not executed) and additionally exercised natively on the ID flag",
                                          "segment set_reg is exercised only with selectors that are guaranteed to fault (beyond the GDT limit / empty LDT)",
                                          "Cr3::write_raw is given 12-bit values; Star::read is checked on contents whose selector sums do not overflow u16"],
         "quick": [{"flavor": "debug", "shards": 4}, {"flavor": "release", "shards": 4}], "thorough": BOTH_T,
